@@ -49,7 +49,7 @@ COMPONENTS = {
     "oracle": ["the same call made in a pristine forked interpreter (dependency slice only)", "deep before/after snapshots of arguments"],
 }
 PROBES = ["same_name_different_definition", "failed_call_then_reuse", "shared_named_dict", "parsed_reused",
-          "writer_handle", "reader_schema_call", "unknown_reference_call", "generate_call", "load_call",
+          "writer_handle", "append_call", "reader_schema_call", "unknown_reference_call", "generate_call", "load_call",
           "json_call", "slice_smaller_than_prefix"]
 
 
@@ -198,7 +198,7 @@ class History:
         self.focus = ch.pick(groups)
         self.focus_pct = ch.pick([0, 60, 90])
         # swarm: every history has its own operation mix (some kinds switched off, some tripled)
-        base_w = [6, 5, 4, 3, 3, 2, 3, 2, 2, 2, 2, 4, 1, 1, 1, 1]
+        base_w = [6, 5, 4, 3, 3, 2, 3, 2, 2, 2, 2, 4, 1, 1, 3, 1]
         self.weights = [max(1 if i < 2 else 0, w * ch.pick([0, 1, 1, 3])) for i, w in enumerate(base_w)]
         if self.focus == ["UAB_1", "UAB_2"]:
             self.weights[11] = max(self.weights[11], 12)   # Writer handles: where a shared default options dict would show
@@ -398,6 +398,23 @@ class History:
             self.base[rname] = [self.base[r] for r in recs]
             self.E[rname] = copy.deepcopy(self.base[rname])
             return {"op": "validate_many", "schema": sref, "records": rname, "opts": {"raise_errors": bool(ch.draw(2))}}
+        if k == 14:
+            cands = [b for b in self.bytes_ if b[2] == "c"]
+            if cands:
+                # append to a file written earlier, handing over whichever schema the caller has around
+                # (the header's schema decides; the argument must come out of the call unchanged)
+                b = ch.pick(cands)
+                sref = b[3] if ch.chance(25) else self.schema_ref()[0]
+                dn = self.data_names(b[1])
+                recs = [ch.pick(dn) for _ in range(ch.draw(3))] if dn else []
+                rname = self.new("RL")
+                self.base[rname] = [self.base[r] for r in recs]
+                self.E[rname] = copy.deepcopy(self.base[rname])
+                out = self.new("C")
+                self.bytes_.append((out, b[1], "c", b[3]))
+                self.ctx.probe("append_call")
+                return {"op": "cappend", "bytes": b[0], "schema": sref, "records": rname, "out": out,
+                        "opts": {"codec": ch.pick(["null", "deflate"]), "sync_interval": ch.pick([1, 16000])}}
         # fallback: parse
         out = self.new("P")
         self.parsed.append((out, key, None))
